@@ -295,7 +295,24 @@ class PipelineInterp(EvalInterp):
         return super().subscript_hook(base, idx, node)
 
 
-def run_pipeline(prog: Program, input_cls: str, result_all=True, approximator=True, matcher=True):
+def _config_attrs(cls: Class, tag: str) -> dict:
+    """The attributes a configured stage object carries (everything its class hierarchy stores on
+    self in __init__), each an opaque value: the pipeline must not depend on any of them."""
+    import ast as _ast
+
+    out = {"_tag": tag}
+    for k in cls.mro():
+        init = k.methods.get("__init__")
+        if init is None or not init.self_name:
+            continue
+        for n in _ast.walk(init.node):
+            if isinstance(n, _ast.Attribute) and isinstance(n.ctx, _ast.Store) and isinstance(n.value, _ast.Name) and n.value.id == init.self_name:
+                name = k.mangle(n.attr) if n.attr.startswith("__") and not n.attr.endswith("__") else n.attr
+                out.setdefault(name, Unknown(f"stage-config:{tag}.{n.attr}"))
+    return out
+
+
+def run_pipeline(prog: Program, input_cls: str, result_all=True, approximator=True, matcher=True, matcher_cls=None, approximator_cls=None):
     f = prog.func("panoptica_evaluator:panoptic_evaluate")
     names = [p.name for p in f.call_params]
     for need in ["input_pair", "instance_approximator", "instance_matcher", "instance_metrics", "global_metrics", "decision_metric", "decision_threshold", "edge_case_handler", "result_all"]:
@@ -316,7 +333,7 @@ def run_pipeline(prog: Program, input_cls: str, result_all=True, approximator=Tr
         pair = it._mkpair(input_cls, "input")
         for a in (pair.attrs["_prediction_arr"], pair.attrs["_reference_arr"]):
             a.fresh = False
-        args = {"input_pair": pair, "instance_approximator": Obj(acls, {"_tag": "APPROX"}) if approximator else None, "instance_matcher": Obj(mcls, {"_tag": "MATCHER"}) if matcher else None, "instance_metrics": it.root.P_instance_metrics, "global_metrics": it.root.P_global_metrics, "decision_metric": Sym("P_decision_metric"), "decision_threshold": Sym("P_decision_threshold"), "edge_case_handler": Sym("P_edge_case_handler"), "result_all": result_all, "log_times": False, "verbose": False, "verbose_calc": Sym("P_verbose_calc")}
+        args = {"input_pair": pair, "instance_approximator": Obj(approximator_cls or acls, _config_attrs(approximator_cls, "APPROX") if approximator_cls else {"_tag": "APPROX"}) if approximator else None, "instance_matcher": Obj(matcher_cls or mcls, _config_attrs(matcher_cls, "MATCHER") if matcher_cls else {"_tag": "MATCHER"}) if matcher else None, "instance_metrics": it.root.P_instance_metrics, "global_metrics": it.root.P_global_metrics, "decision_metric": Sym("P_decision_metric"), "decision_threshold": Sym("P_decision_threshold"), "edge_case_handler": Sym("P_edge_case_handler"), "result_all": result_all, "log_times": False, "verbose": False, "verbose_calc": Sym("P_verbose_calc")}
         it.env.update(args)
         ni = {prog.func("instance_evaluator:evaluate_matched_instance").qual, rcls.lookup("__init__").qual, rcls.lookup("calculate_all").qual, prog.func("_functionals:_get_paired_crop").qual, prog.func("utils.numpy_utils:_unique_without_zeros").qual, prog.func("utils.numpy_utils:_count_unique_without_zeros").qual, prog.func("utils.processing_pair:_check_array_integrity").qual}
         for c in [acls] + acls.all_subclasses():
